@@ -66,7 +66,10 @@ class TypeNormalizer:
             except KeyError:  # pragma: no cover
                 raise TypeError(f"ovld does not understand generic type {t}")
         elif isinstance(t, tuple):
-            return Union[tuple(self(t2, fn) for t2 in t)]
+            # Like typing.Union: a repeated member counts once, and the
+            # union of a single type is that type
+            members = tuple(dict.fromkeys(self(t2, fn) for t2 in t))
+            return members[0] if len(members) == 1 else Union[members]
         elif isinstance(t, DependentType) and not t.bound:
             raise UsageError(
                 f"Dependent type {t} has not been given a type bound. Please use Dependent[<bound>, {t}] instead."
